@@ -173,6 +173,9 @@ class Check(PropertyCheck):
                     break
         return f
 
+    def oracle_on_texts(self, texts):
+        return self.oracle([t.replace("\r", "") + ("" if t.endswith("\n") else "\n") for t in texts])
+
     def replay_case(self, case):
         return self.oracle([case["input"]])
 
